@@ -487,6 +487,48 @@ def check_assume_init(ctx, cfg):
     return n
 
 
+def check_vec_disown(ctx, cfg, rule="C03.V"):
+    """`Vec::set_len(k)` with k below the length makes the Vec forget elements [k, len) without dropping them: on every return path through it
+    those elements must have been taken over - a raw copy out of the Vec's own buffer, from its start, of exactly the old length, into storage
+    that then owns them - or they are dropped zero times. (A refusal path placed after the set_len leaks the refused elements.)"""
+    from ..segmap import path_calls
+    db = ctx.db(cfg)
+    n = 0
+    for b in db.bodies:
+        if b["kind"] not in ("Fn", "AssocFn") or ctx.is_helper(cfg, b):
+            continue
+        if not any(t["term"]["k"] == "call" and t["term"]["f"].get("k") == "fn" and t["term"]["f"]["def"] == "alloc::vec::Vec::<T, A>::set_len" for t in ctx.inlined(db, b)["mir"]["blocks"]):
+            continue
+        at = ctx.analysis_inl(cfg, b["key"], split=True)
+        bad, und = [], []
+        for r in at.returns:
+            calls = path_calls(at, r)
+            if calls is None:
+                und.append("return at bb%d: path not unique" % r["bb"])
+                continue
+            for i, s_ in enumerate(calls):
+                if s_.fn != "alloc::vec::Vec::<T, A>::set_len" or s_.args[0][0] != "P" or s_.args[1][0] != "I":
+                    continue
+                vec = s_.args[0][1]
+                lens = [c for c in calls[:i] if c.fn == "alloc::vec::Vec::<T, A>::len" and c.args[0][0] == "P" and c.args[0][1] == vec and c.ret[0] == "I"]
+                if not lens:
+                    bad.append("set_len at %s without the old length being read first" % (s_.at,))
+                    continue
+                old = lens[-1].ret[1]
+                pf = at.poly_facts(r["facts"])
+                if prove(("==", old - s_.args[1][1]), pf):
+                    continue   # nothing is forgotten on this path
+                ptrs = [c for c in calls if c.fn in ("alloc::vec::Vec::<T, A>::as_ptr", "alloc::vec::Vec::<T, A>::as_mut_ptr") and c.args[0][0] == "P" and c.args[0][1] == vec]
+                took = [c for c in calls if c.fn in ("core::ptr::copy_nonoverlapping", "core::ptr::copy") and any(c.args[0] == p_.ret for p_ in ptrs)
+                        and at.as_poly(c.args[2]) is not None and prove(("==", at.as_poly(c.args[2]) - (old - s_.args[1][1])), pf)]
+                if not (took and s_.args[1][1].is_const() and s_.args[1][1].const_value() == 0):
+                    bad.append("the elements the Vec forgets at %s (set_len(%r) of %r) are not taken over on the path returning %s: dropped zero times" % (s_.at, s_.args[1][1], old, vstr(r["val"])[:60]))
+        st = REFUTED if bad else (UNKNOWN if und else PROVED)
+        ctx.ob(rule, b["key"], st, "; ".join(sorted(set(bad + und))) if (bad or und) else "every path through a Vec::set_len either forgets nothing or copies the forgotten elements out first", at=b["at"], cfg=cfg, frozen=False)
+        n += 1
+    return n
+
+
 def check(ctx):
     ctx.explanation = EXPLANATION
     ctx.trusted = ["rustc ownership/borrow checking of all safe code", "ptr::read/write/copy, MaybeUninit, ManuallyDrop semantics",
@@ -502,6 +544,7 @@ def check(ctx):
         n += c09.check_owned_ops(ctx, cfg, rule="C03.T")
         n += check_assume_init(ctx, cfg)
         check_no_conjured_elements(ctx, cfg)
+        check_vec_disown(ctx, cfg)
         ctx.floor("C03.T", "tiling / whole-value reinterpretation instances (%s)" % cfg, n, 11)
         p = c04.check_closures(ctx, cfg, want_normal=True, rule_p="C03.P")
         ctx.floor("C03.P", "element-moving closures (%s)" % cfg, p, 1)
